@@ -97,6 +97,8 @@ class Fru(object):
         data = self.read_fru_data(offset=offset, count=5, fru_id=fru_id)
         # get the whole area data
         count = data[1] * 8
+        if count == 0:
+            raise DecodingError('info area length is 0')
         return self.read_fru_data(offset=offset, count=count, fru_id=fru_id)
 
     def get_fru_chassis_area(self, fru_id=0):
@@ -221,6 +223,8 @@ class CommonInfoArea(FruData):
             raise DecodingError('unsupported format version (%d)' %
                                 self.format_version)
         self.length = data[1] * 8
+        if self.length == 0 or len(data) < self.length:
+            raise DecodingError('invalid info area length (%d)' % self.length)
         if sum(data[:self.length]) % 256 != 0:
             raise DecodingError('checksum failed')
 
